@@ -165,6 +165,8 @@ def run(chk, runner_ok):
     fixed.fills = ["1/", "2/y/3/", "f"]
     fixed.grammar_but_two = True
     run_cases(chk, model, [fixed] + cases, "MATCHER-two-starstar", two=True)
+    # ---- stateful: derived matchers created after their source was used ----------
+    ml.run_stateful(chk, model, chk.n(500, 5000))
     # ---- a variable used in the pattern and again inside another variable's value ----
     for i in range(chk.n(6, 30)):
         inner = rng.choice(["v", "topdir", "ab_1"])
